@@ -119,6 +119,10 @@ pub struct ModelState {
     pub n_audio: u64,
     pub vclock: f64,
     pub aclock: f64,
+    pub v_first_tick: Option<u64>,
+    pub v_last_delta: u64,
+    pub a_first_tick: Option<u64>,
+    pub a_last_delta: u64,
     /// after an Either verdict the model state may differ from the implementation: stop judging
     pub desynced: bool,
 }
@@ -406,13 +410,31 @@ pub fn interpret(c: &RawCase, decisions: &std::collections::BTreeMap<usize, bool
                 steps.push(Step { op: COp::EncAudio { data, samples: *samples }, verdict: v, sample, tie });
             }
             ROp::Finish(k) => {
+                let total = |first: Option<u64>, last: Option<u64>, d: u64| match (first, last) {
+                    (Some(f), Some(l)) => (l - f) as u128 + d as u128,
+                    _ => 0,
+                };
+                let too_long = total(st.v_first_tick, st.last_vtick, st.v_last_delta) > u32::MAX as u128
+                    || total(st.a_first_tick, st.last_atick, st.a_last_delta) > u32::MAX as u128;
                 let v = if st.finished {
                     Verdict::MustReject([ErrClass::Finished].into_iter().collect())
+                } else if st.desynced {
+                    Verdict::Either("after_unconstrained_call".into())
+                } else if too_long {
+                    // not among the documented preconditions; a 32-bit duration field cannot hold it (C16)
+                    Verdict::Either("track_duration_beyond_u32(C16)".into())
                 } else {
                     Verdict::MustAccept
                 };
-                if !st.finished {
-                    st.finished = true;
+                match &v {
+                    Verdict::MustAccept => st.finished = true,
+                    Verdict::Either(_) => match decisions.get(&i) {
+                        Some(true) => st.finished = true,
+                        // a failed finish leaves the muxer unusable for writes as well (its writer is finalised)
+                        Some(false) => st.desynced = true,
+                        None => st.desynced = true,
+                    },
+                    Verdict::MustReject(_) => {}
                 }
                 steps.push(Step { op: COp::Finish(FinishKind::from_idx(*k)), verdict: v, sample: None, tie: false });
             }
@@ -452,6 +474,16 @@ fn judge_video(st: &ModelState, cfg: &CCfg, pts: f64, dts: Option<f64>, frame: &
         tie = te.tie || ticks_exact(pts).tie;
         if te.huge || ticks_exact(pts).huge || te.tick >= (1u64 << 53) || ticks_exact(pts).tick >= (1u64 << 53) {
             either = Some("timestamp_beyond_2^53_ticks(C16)".into());
+            // any range error is an acceptable name for a timestamp the tick counter cannot represent exactly
+            contested.insert(DurationOverflow);
+        }
+        if dts.is_some() {
+            let pt = ticks_exact(pts).tick;
+            if (pt as i128 - te.tick as i128).unsigned_abs() > i32::MAX as u128 {
+                // not among the documented preconditions; a 32-bit composition offset cannot hold it (C16)
+                either.get_or_insert("composition_offset_beyond_i32(C16)".into());
+                contested.insert(DurationOverflow);
+            }
         }
         if let Some(last) = st.last_vtick {
             if te.tick < last {
@@ -530,6 +562,12 @@ fn apply_video(st: &mut ModelState, v: &Verdict, pts: f64, dts: Option<f64>, tic
             if let Some(d) = dts {
                 st.last_vdts_explicit = Some(d);
             }
+            if let Some(l) = st.last_vtick {
+                st.v_last_delta = tick.saturating_sub(l);
+            }
+            if st.v_first_tick.is_none() {
+                st.v_first_tick = Some(tick);
+            }
             st.last_vtick = Some(tick);
             if st.first_vpts.is_none() {
                 st.first_vpts = Some(pts);
@@ -603,6 +641,9 @@ fn judge_audio(st: &ModelState, audio_cfg: bool, pts: f64, data: &[u8], framing_
         if grey {
             v.insert(AudioFraming);
         }
+        if huge_audio_ts(pts) {
+            v.insert(DurationOverflow);
+        }
         return (Verdict::MustReject(v), tick, tie);
     }
     if let Some(e) = either {
@@ -626,6 +667,12 @@ fn apply_audio(st: &mut ModelState, v: &Verdict, pts: f64, tick: u64, decided: O
     match accept {
         true => {
             st.last_apts = Some(pts);
+            if let Some(l) = st.last_atick {
+                st.a_last_delta = tick.saturating_sub(l);
+            }
+            if st.a_first_tick.is_none() {
+                st.a_first_tick = Some(tick);
+            }
             st.last_atick = Some(tick);
             st.n_audio += 1;
         }
@@ -722,4 +769,11 @@ pub fn raw_case_strategy(max_ops: usize, finish_weight: u32) -> impl Strategy<Va
             }
             RawCase { codec, video_configured, audio, rate_idx, channels, fast_start, title, ops }
         })
+}
+
+fn huge_audio_ts(pts: f64) -> bool {
+    pts.is_finite() && pts >= 0.0 && {
+        let t = ticks_exact(pts);
+        t.huge || t.tick >= (1u64 << 53)
+    }
 }
